@@ -601,12 +601,21 @@ pub fn explore(thorough: bool, result_path: &str) {
             let ns = if thorough { SCALE_NS_THOROUGH } else { SCALE_NS };
             let pos = (j % ns.len() as u64) as usize;
             if pos > 0 && ns[pos - 1] >= 256 && o.failure.is_none() {
-                let prev = run_case(&(subs[k].gen)(j - 1));
+                // the reference is the LARGEST step count at any smaller size of the same family (not only the next smaller one):
+                // a family may alternate between two linear regimes (e.g. a comment that is closed for an even and open for an
+                // odd number of repetitions), which is not growth
+                let mut prev = run_case(&(subs[k].gen)(j - 1));
+                for back in 2..=pos as u64 {
+                    let q = run_case(&(subs[k].gen)(j - back));
+                    if q.failure.is_none() && q.fuel > prev.fuel {
+                        prev = q;
+                    }
+                }
                 rep.count("scaling_pairs", 1);
                 if prev.failure.is_none() && prev.fuel >= 200 && o.fuel > prev.fuel * 5 {
                     let v = Violation {
                         fingerprint: format!("superquadratic|{}", (subs[k].gen)(j - 1).to_json()),
-                        what: format!("parser steps grow from {} to {} when the input doubles", prev.fuel, o.fuel),
+                        what: format!("parser steps grow from at most {} (any smaller size of the family) to {} when the input doubles", prev.fuel, o.fuel),
                         replay: json!({"engine": "c01", "case": case.to_json(), "class": "superquadratic", "half": (subs[k].gen)(j - 1).to_json()}),
                     };
                     rep.violation(v);
